@@ -161,6 +161,8 @@ def gen_history(rng):
     r = rng.random()
     obj += 1
     base = G.gen_late_register(rng, obj)
+    if rng.random() < 0.3:
+      base['_decorated'] = rng.choice([1, 2, 3])   # functools.wraps layers between gin and the function
     if r < 0.15:
       base.update(name='1bad', nameValid=False, _name_arg='1bad', _pyname='late%d' % obj)
     elif r < 0.25:
@@ -178,7 +180,10 @@ def gen_history(rng):
     elif r < 0.7:
       names = [p[0] for p in base['sig']['pos']]
       if names:
-        base.update(allow=[names[0]], listTypesOk=False, _allow_arg=names[0])
+        if rng.random() < 0.5:
+          base.update(allow=[names[0]], listTypesOk=False, _allow_arg=names[0])
+        else:   # a one-shot iterator is not a list or tuple either
+          base.update(deny=[names[0]], listTypesOk=False, _deny_iter=True)
     elif r < 0.85:
       interactive = not interactive
       ops.append({'op': 'interactive', 'on': interactive})
